@@ -27,7 +27,7 @@ HasRep(ob, S) == \E i \in 1..Len(ob.ev) : ob.ev[i].k = "rep" /\ ob.ev[i].v = S
 Flags0 == [approvedPending |-> FALSE, approvedAny |-> FALSE, cancelled |-> FALSE, faults |-> FALSE, userClosed |-> FALSE, lateHello |-> FALSE]
 FlagsAfter(f, s, accE) ==
     [ approvedPending |-> f.approvedPending \/ (s.a.a = "Approve" /\ accE.last \in {"InitStart", "ServerWait", "PendingListen"}),
-      approvedAny     |-> f.approvedAny \/ s.a.a = "Approve",
+      approvedAny     |-> f.approvedAny \/ Approves(s.a),
       cancelled       |-> f.cancelled \/ (s.a.a = "Cancel" /\ HasRep(s.ob, "Abort")),
       faults          |-> f.faults \/ s.a.a \in {"ArmWriteFailure", "WsFail"},
       userClosed      |-> f.userClosed \/ s.a.a = "Close",
@@ -55,7 +55,8 @@ JudgeTrace(t) ==
                                faultFree |-> ~f.flags.faults, userClosed |-> f.flags.userClosed ]
                     IN  {[i |-> Len(t.steps), key |-> k] : k \in JudgePair(PairOb(t.pairEnd.c, f.accs["c"]), PairOb(t.pairEnd.s, f.accs["s"]), q)}
                ELSE {}
-        kf  == IF f.flags.approvedPending /\ f.flags.lateHello THEN {"approve-before-hello"} ELSE {}
+        kf  == (IF f.flags.approvedPending /\ f.flags.lateHello THEN {"approve-before-hello"} ELSE {})
+               \cup (IF \E i \in 1..Len(t.steps) : t.steps[i].a.a = "Par" THEN {"par"} ELSE {})
     IN  [bad |-> f.bad \cup pb, kf |-> kf]
 
 Init == l = 0
